@@ -2,7 +2,7 @@
 """Regenerates the table of seeded changes in DESIGN.md (between the seed-table markers) from seeded/*/meta.json."""
 import glob, json, os
 HERE = os.path.dirname(os.path.dirname(os.path.abspath(__file__)))
-rows = [json.load(open(os.path.join(d, "meta.json"))) for d in sorted(glob.glob(os.path.join(HERE, "seeded", "*")))]
+rows = [json.load(open(os.path.join(d, "meta.json"))) for d in sorted(glob.glob(os.path.join(HERE, "seeded", "c[0-9]*-*")))]
 out = ["| seed | change | outcome |", "|---|---|---|"]
 caught = 0
 for m in rows:
